@@ -29,7 +29,8 @@ enum { KEEP_IF_SAME = 1,   // the command leaves an output whose content would n
        ALWAYS_FAILS = 4,
        EXPECT_CYCLE = 8,
        NONCANONICAL_DEPFILE = 16,
-       REGEN_MANIFEST = 32 };       // the statement regenerates build.ninja from configure.in (each edit of configure.in selects the next manifest variant)  // the command spells the extra files it read as ./name in its depfile (compilers do, for -I. includes)  // by the manifest text this statement lies on a dependency cycle (expectation independent of ninja's own parse)
+       REGEN_MANIFEST = 32,
+       RUNS_RESTAT_TOOL = 64 };     // the command runs `ninja -t restat` in the build directory when it is done (as CMake's regeneration step does)       // the statement regenerates build.ninja from configure.in (each edit of configure.in selects the next manifest variant)  // the command spells the extra files it read as ./name in its depfile (compilers do, for -I. includes)  // by the manifest text this statement lies on a dependency cycle (expectation independent of ninja's own parse)
 struct CmdSpec {
   const char* out;            // first output of the statement this entry describes
   const char* extra_reads;    // files the command reads beyond its declared explicit/implicit inputs; it reports them (depfile / deps / dyndep)
@@ -117,7 +118,8 @@ static long mix(int ordinal, int k, const std::vector<long>& in, int flags, long
   return c % 1000000007L;
 }
 // declared-input view of the current manifest used by the reference ("what would a from-scratch build produce")
-struct RefEdge { std::vector<std::string> outs, reads, order_only, validations; int ordinal; int flags; bool phony; bool generator; size_t ndeclared; std::string command, plain_depfile; long cmdh; };
+struct RefEdge { std::vector<std::string> outs, reads, order_only, validations; int ordinal; int flags; bool phony; bool generator; size_t ndeclared; std::string command, plain_depfile; long cmdh;
+  std::string depfile, rspfile, rspfile_content, pool_name, deps_type; int pool_depth; bool console; };
 static std::vector<RefEdge> g_ref;
 static void build_reference(State* st) {
   g_ref.clear();
@@ -131,6 +133,7 @@ static void build_reference(State* st) {
     for (size_t k = 0; k < e->validations_.size(); k++) r.validations.push_back(e->validations_[k]->path());
     r.ndeclared = r.reads.size(); r.generator = e->GetBindingBool("generator"); r.command = e->EvaluateCommand(true); r.cmdh = r.generator ? 0 : cmd_hash(r.command);
     if (e->GetBinding("deps").empty()) r.plain_depfile = e->GetUnescapedDepfile();
+    r.depfile = e->GetUnescapedDepfile(); r.rspfile = e->GetUnescapedRspfile(); r.rspfile_content = e->GetBinding("rspfile_content"); r.pool_name = e->pool()->name(); r.pool_depth = e->pool()->depth(); r.console = e->use_console(); r.deps_type = e->GetBinding("deps");
     const CmdSpec* s = spec_for(r.outs[0]); r.flags = s ? s->flags : 0;
     if (s) { std::vector<std::string> x = split_words(s->extra_reads); for (size_t q = 0; q < x.size(); q++) { bool have = false; for (size_t z = 0; z < r.reads.size(); z++) have = have || r.reads[z] == x[q]; if (!have) r.reads.push_back(x[q]); }
              if (s->dyndep_text) r.flags |= 0; }
@@ -186,6 +189,9 @@ static void closure(const std::string& f, std::vector<std::string>* out, int dep
 // what each statement's command saw the last time it succeeded (for the minimality reference of C03)
 struct LastRun { bool ran; std::vector<long> snap; std::string command; LastRun() : ran(false) {} };
 static LastRun g_last[16];
+// a build command that runs `ninja -t restat` itself: the real BuildLog::Restat rewrites .ninja_log (temporary file + rename) under the feet of the
+// ninja that started the command
+static void run_restat_tool_from_command();
 // ------------------------------------------------------------------------------------------------ the command runner
 struct Running { Edge* edge; std::vector<long> snap; bool missing_input; int flags; bool phantom; long stdout_len_at_start; long cmdh; };
 struct TokenPool;
@@ -310,6 +316,7 @@ struct SymRunner : public CommandRunner {
       g_tree->write(p, c);
     }
     if (r.flags & REGEN_MANIFEST) g_manifest_variant = regen_variant();       // the generator has rewritten build.ninja from configure.in
+    if (r.flags & RUNS_RESTAT_TOOL) run_restat_tool_from_command();
     std::vector<std::string> reads = read_set(e);
     std::string dep = e->GetUnescapedDepfile();
     if (!dep.empty()) { std::string t = e->outputs_[0]->path() + ":"; size_t nd = reads.size(); for (size_t z = 0; z < g_ref.size(); z++) if (g_ref[z].ordinal == ord) nd = g_ref[z].ndeclared;
@@ -326,6 +333,7 @@ struct SymRunner : public CommandRunner {
     active.clear(); }
 };
 
+static void run_restat_tool_from_command() { BuildLog log; std::string err; if (log.Load(".ninja_log", &err) == LOAD_SUCCESS) { SymDisk d; log.Restat(".ninja_log", d, 0, NULL, &err); } }
 struct RecStatus : public Status {
   int added, removed, started, finished, failed_n; bool build_started, build_finished; std::vector<std::string> msgs; std::vector<int> started_edges;
   RecStatus() : added(0), removed(0), started(0), finished(0), failed_n(0), build_started(false), build_finished(false) {}
